@@ -569,8 +569,8 @@ Ltac split_if :=
       lazymatch b with
       | context [if _ then _ else _] => fail
       | context [match _ with _ => _ end] => fail
-      | negb ?x => destruct x eqn:?
-      | _ => destruct b eqn:?
+      | negb ?x => first [ match goal with H : x = _ |- _ => rewrite H end | destruct x eqn:? ]
+      | _ => first [ match goal with H : b = _ |- _ => rewrite H end | destruct b eqn:? ]
       end
   end.
 
@@ -618,5 +618,111 @@ Proof.
   Time repeat xstep.
   all: rewrite <- ?app_assoc; fin_; rewrite ?cl_eq; subst RHS; unfold update_ops_fd; red1_; rewrite ?Nat.sub_0_r; use_hyps; red1_.
   all: try reflexivity.
-  all: match goal with |- ?g => idtac "GOAL"; idtac g end.
-Abort.
+Qed.
+
+(* ---- the tie, every parameter combination, every oracle ----------------------------------------- *)
+Theorem src_update_fd P d c tr va cn v ro :
+  src_update_ops P d c tr va cn v ro = Some (update_ops_fd P d c tr va cn v ro).
+Proof. destruct P as [[|] em eo b]; [apply files_tie_klb|apply files_tie_keep_all]. Qed.
+
+(* ---- first occurrences vs last occurrences in the clean-up set ---------------------------------- *)
+Lemma mem_filter g p l : mem p (filter g l) = mem p l && g p.
+Proof.
+  induction l as [|x l IH]; [reflexivity|]. cbn [filter].
+  destruct (g x) eqn:G; cbn [mem existsb]; fold (mem p l); fold (mem p (filter g l)); rewrite IH.
+  - destruct (path_eqb p x) eqn:E; [|reflexivity]. apply path_eqb_eq in E. subst. rewrite G. reflexivity.
+  - destruct (path_eqb p x) eqn:E; [|reflexivity]. apply path_eqb_eq in E. subst. rewrite G.
+    cbn. rewrite andb_false_r. reflexivity.
+Qed.
+
+Lemma mem_dedup p l : mem p (dedup l) = mem p l.
+Proof.
+  apply Bool.eq_iff_eq_true. rewrite !mem_In. apply dedup_In.
+Qed.
+
+Lemma filter_none {A} (f : A -> bool) l : (forall x, List.In x l -> f x = false) -> filter f l = [].
+Proof.
+  induction l as [|x l IH]; intros H; [reflexivity|]. cbn [filter].
+  rewrite (H x (or_introl eq_refl)). apply IH. intros y Hy. apply H. right. exact Hy.
+Qed.
+
+Lemma order_by_ext ro l1 l2 :
+  (forall p, mem p l1 = mem p l2) -> (forall p, mem p l1 = true -> mem p ro = true) ->
+  order_by ro l1 = order_by ro l2.
+Proof.
+  intros Hm Hc. unfold order_by. f_equal.
+  - apply filter_ext. exact Hm.
+  - rewrite !filter_none; [reflexivity| |].
+    + intros x Hx. apply mem_In in Hx. rewrite <- Hm in Hx. rewrite (Hc x Hx). reflexivity.
+    + intros x Hx. apply mem_In in Hx. rewrite (Hc x Hx). reflexivity.
+Qed.
+
+Lemma covers_mem ro l p : covers ro l = true -> mem p l = true -> mem p ro = true.
+Proof.
+  unfold covers. intros H Hp. apply mem_In in Hp. rewrite forallb_forall in H. apply H, Hp.
+Qed.
+
+Lemma fd_eq_model P d c tr va cn v ro : covers ro (cl_paths P c) = true ->
+  update_ops_fd P d c tr va cn v ro = update_ops P d c tr va cn v ro.
+Proof.
+  intros Hc. unfold update_ops_fd, update_ops. cbv zeta. rewrite !S_sub1.
+  destruct (klb P); [|reflexivity].
+  match goal with |- (if ?g then _ else _) = _ => destruct g; [reflexivity|] end.
+  destruct (Nat.eqb _ (last_epoch c)); [reflexivity|].
+  match goal with
+  | |- Some (_ ++ _ ++ _ ++ map Remove (order_by ro ?l1), _) = Some (_ ++ _ ++ _ ++ map Remove (order_by ro ?l2), _) =>
+      rewrite (order_by_ext ro l1 l2); [reflexivity| |]
+  end.
+  - intros p. rewrite !mem_filter, mem_padd_all, mem_dedup. reflexivity.
+  - intros p. rewrite !mem_filter, mem_padd_all. cbn [mem existsb orb]. intros H.
+    apply andb_prop in H. destruct H as [H _]. apply andb_prop in H. destruct H as [H _].
+    apply (covers_mem ro (cl_paths P c) p Hc). unfold cl_paths.
+    destruct (Nat.eqb (best_epoch (bt P) c) _); cbn [app mem existsb] in *;
+      repeat match goal with H : (_ || _) = true |- _ => apply orb_prop in H; destruct H as [H|H] end;
+      try discriminate; rewrite H; rewrite ?orb_true_r; reflexivity.
+Qed.
+
+(* the oracle ranks the paths of the clean-up set: the source IS the model *)
+Theorem src_update_tie P d c tr va cn v ro : covers ro (cl_paths P c) = true ->
+  src_update_ops P d c tr va cn v ro = Some (update_ops P d c tr va cn v ro).
+Proof. intros H. rewrite src_update_fd, (fd_eq_model _ _ _ _ _ _ _ _ H). reflexivity. Qed.
+
+(* both formats of the same kind (both with {epoch}, or both without): the source IS the model, any oracle *)
+Lemma padd_dedup_same P a b : ep_m P = ep_o P ->
+  padd_all [] [pth P KM a; pth P KO a; pth P KM b; pth P KO b]
+  = dedup [pth P KM a; pth P KO a; pth P KM b; pth P KO b].
+Proof.
+  intros E. unfold pth, has_ep. rewrite E. destruct (ep_o P).
+  - cbn. rewrite (Nat.eqb_sym b a). destruct (Nat.eqb a b) eqn:Eab; cbn; [|reflexivity].
+    apply Nat.eqb_eq in Eab. subst. reflexivity.
+  - reflexivity.
+Qed.
+
+Lemma fd_eq_model_same P d c tr va cn v ro : ep_m P = ep_o P ->
+  update_ops_fd P d c tr va cn v ro = update_ops P d c tr va cn v ro.
+Proof.
+  intros E. unfold update_ops_fd, update_ops. cbv zeta. rewrite !S_sub1.
+  destruct (klb P); [|reflexivity].
+  match goal with |- (if ?g then _ else _) = _ => destruct g; [reflexivity|] end.
+  destruct (Nat.eqb _ (last_epoch c)); [reflexivity|].
+  destruct (Nat.eqb (best_epoch (bt P) c) _).
+  - reflexivity.
+  - cbn [app]. rewrite (padd_dedup_same P _ _ E). reflexivity.
+Qed.
+
+Theorem src_update_tie_same_fmt P d c tr va cn v ro : ep_m P = ep_o P ->
+  src_update_ops P d c tr va cn v ro = Some (update_ops P d c tr va cn v ro).
+Proof. intros H. rewrite src_update_fd, (fd_eq_model_same _ _ _ _ _ _ _ _ H). reflexivity. Qed.
+
+(* whole runs: with the model's update function the parameterised run IS Model.run (so SrcRun.src_run differs
+   from Model.run only by the update function, which the theorems above relate) *)
+Lemma seg_with_model P E rest : forall d c cn budget,
+  seg_with (fun d c tr va cn v ro => Some (update_ops P d c tr va cn v ro)) E rest d c cn budget
+  = Some (seg P E rest d c cn budget).
+Proof.
+  induction rest as [|[tr va] rest IH]; intros d c cn budget; [reflexivity|].
+  cbn [seg_with seg]. destruct (update_ops P d c tr va cn (pv E cn) (ro E cn)) as [[ops r]|]; [|reflexivity].
+  match goal with |- (if ?b then _ else _) = _ => destruct b; [reflexivity|] end.
+  rewrite IH. destruct (seg P E rest _ _ _ _) as [[[d'' cn'] oc] lg]. reflexivity.
+Qed.
+
